@@ -83,12 +83,22 @@ def generate(rng: Prng, tier: str) -> dict:
     elif (dp := rng.stream("deep")).chance(0.004):
         # "deep chains, high-degree nodes" are in the quantifier: a few big trees in the quick tier too (a reader or
         # writer that recurses per node, or is quadratic in the row count, shows only beyond ~1000 nodes)
-        n = dp.randint(1050, 2600)
+        n = dp.randint(1050, 2600) if dp.chance(0.7) else dp.randint(4097, 9000)
         shape = dp.choice(["chain", "chain", "star", "stemmed"])
     else:
         n = w.choice([1, 1, 2, 3, 4, 6, 9, 15, 25, 60])
         shape = None
     tree = tree_model.gen_tree(w, n, shape)
+    un = rng.stream("numbering")
+    if n > 2 and un.chance(0.2):
+        # well-formed, but not numbered parent-before-child: the root stays node 0, the other positions are permuted
+        perm = [0] + [1 + q for q in un.permutation(n - 1)]  # new position of old node i
+        inv = [0] * n
+        for o_, n_ in enumerate(perm):
+            inv[n_] = o_
+        t2 = {k: [tree[k][inv[j]] for j in range(n)] for k in tree}
+        t2["pid"] = [(-1 if tree["pid"][inv[j]] == -1 else perm[tree["pid"][inv[j]]]) for j in range(n)]
+        tree = t2
     comments = [w.choice(COMMENTS) + (f" k{i}" if w.chance(0.5) else "") for i in range(w.choice([0, 0, 1, 2, 3, 4]))]
     lc = rng.stream("long_comment")
     if lc.chance(0.04):
@@ -119,6 +129,10 @@ def generate(rng: Prng, tier: str) -> dict:
             g_["rewrite"] = {"node": rh.below(64), "col": rh.choice(["x", "y", "z", "r"]),
                              "via": rh.choice(["node", "ndata", "copy"]), "keep_mtime": rh.chance(0.6),
                              "source": rh.choice(["path", "path", "string", "bytes"])}
+        pf = rng.stream(f"pathform{g}")
+        if pf.chance(0.2):
+            # the same file under another spelling, used for the write and for every read of this generation
+            g_["pathform"] = pf.choice(["dots", "symlink_dotdot", "symlink_dotdot"])
         ph = rng.stream(f"preamble{g}")
         for rd in reads:
             if ph.chance(0.15):
@@ -358,8 +372,11 @@ def execute(program: dict) -> dict:
                         world.fired("target_path_held_a_longer_file")
                     world.write_plans[rel] = StreamPlan.from_json(wr.get("wstream"))
                     # the path as a str or, in a third of the writes, as a pathlib.Path (any os.PathLike)
-                    target = world.path(rel) if (gi + len(text_so_far)) % 3 else pathlib.Path(world.path(rel))
-                    if (gi + n) % 5 == 0:
+                    spelled = world.spelled(rel, gen.get("pathform", "plain"))
+                    if gen.get("pathform"):
+                        world.probe("c01.path_spelled_" + gen["pathform"])
+                    target = spelled if (gi + len(text_so_far)) % 3 else pathlib.Path(spelled)
+                    if (gi + n) % 5 == 0 and not gen.get("pathform"):
                         # a bare file name, relative to the current directory (no directory part at all)
                         import os as _os
 
@@ -394,7 +411,8 @@ def execute(program: dict) -> dict:
                 src_kind = rd["source"]
                 if src_kind == "path":
                     world.read_plans[rel] = plan
-                    src = world.path(rel) if (gi + ri) % 3 else pathlib.Path(world.path(rel))
+                    spelled = world.spelled(rel, gen.get("pathform", "plain")) if wr["target"] == "path" else world.path(rel)
+                    src = spelled if (gi + ri) % 3 else pathlib.Path(spelled)
                 else:
                     src = open_stream(world, src_kind, text, data, plan, rd.get("preamble"))
                 try:
